@@ -462,6 +462,39 @@ func (ex *Ex) invoke(fr *Frame, st *State, ins ssa.Instruction, cc *ssa.CallComm
 		ex.invokeByContract(fr, st, ins, ec, recv, cc.Value.Type(), args, sig, k)
 		return
 	}
+	// errbase.Printer: what a SafeFormatError / FormatError method hands to the printer is recorded
+	// in the ghost sequence $pargs (every argument of Print / Printf, in order), Detail() is a
+	// function of the printer
+	if strings.HasSuffix(cc.Value.Type().String(), "errbase.Printer") {
+		switch m.Name() {
+		case "Print", "Printf":
+			if pa, ok := st.ghost["$pargs"]; ok && len(cc.Args) > 0 {
+				av := ex.val(fr, st, cc.Args[len(cc.Args)-1])
+				n := -1
+				if av.Back != 0 && av.BackLen.Kind == kInt {
+					fmt.Sscanf(av.BackLen.Op, "%d", &n)
+				}
+				if n >= 0 {
+					cur := pa.T
+					es := SIface
+					for i := 0; i < n; i++ {
+						el := Select(st.cells[av.Back], Add(av.BackOff, IntLit(int64(i))))
+						cur = w.MkSlice(es, Store(w.SliceArr(cur, es), w.SliceLen(cur), el), Add(w.SliceLen(cur), IntLit(1)), tFalse)
+					}
+					st.ghost["$pargs"] = SV{T: cur, Ty: pa.Ty}
+				} else {
+					st.ghost["$pargs"] = SV{T: ex.FreshVar("pargs", pa.T.S), Ty: pa.Ty}
+				}
+			}
+			res, _ := ex.freshResults(m.Name(), sig)
+			ex.flushFacts(st)
+			k(st, res)
+			return
+		case "Detail":
+			k(st, Val{T: App("f$pDetail", SBool, recv)})
+			return
+		}
+	}
 	ex.note("unmodelled interface method call (result havoced): " + w.shortType(cc.Value.Type()) + "." + m.Name())
 	res, _ := ex.freshResults(m.Name(), sig)
 	ex.flushFacts(st)
